@@ -116,6 +116,8 @@ Definition run_tls (c : list N) : list N :=
       | 0 => [b2n (reaches (mkT OtherCA true skip CNone false))]     (* nothing validates against an empty store *)
       | 1 => [b2n (reaches (mkT Trusted true skip CNone false))]     (* no --tls-ca: the system store *)
       | 2 => [0]                                                      (* a client CA without certificates: no identity *)
+      | 4 | 5 | 6 => [0]                                              (* a client CA that cannot be loaded: no identity *)
+      | 7 => [0; 0]                                                   (* ... on a reload: it fails, a client without certificate stays out *)
       | _ => [b2n (reaches (mkT Trusted true skip COther true))]     (* client cert under the system root, not under the client CA *)
       end
   | [3; url; hn; sni; sk] =>
